@@ -134,6 +134,35 @@ def r12_7(run, model):
     run.ob("R12.7", "range_from_span|uses both ends", both and re.search(r"TextRange::new\(start,end\)|TextRange::new\(.*start.*,.*end.*\)", t) is not None, site(LEX, g.node["sp"]), t[:120])
 
 
+def r12_9(run, model):
+    run.rule("R12.9", "the lexer drops nothing and the cursor never leaves the token list: TokenKind carries no `#[logos(skip ..)]` (trivia are "
+                      "tokens), and Input::skip only increments the cursor under an end-of-input test (past the end, `cursor == len` is "
+                      "never true again and every `while !p.eof()` loop spins)")
+    LEX = "crates/lexer/src/lib.rs"
+    tk = model.enum("TokenKind", LEX)
+    skips = []
+    for a in tk["node"].get("attrs", []):
+        if a["name"] == "logos" and "skip" in (a.get("args") or ""):
+            skips.append(a.get("args"))
+    for v in tk["variants"]:
+        for a in v.get("attrs", []):
+            if a["name"] == "logos" and "skip" in (a.get("args") or ""):
+                skips.append(f"{v['name']}: {a.get('args')}")
+    run.ob("R12.9", "TokenKind|no skipped input", not skips, site(LEX, tk["node"]["sp"]), f"logos skip attributes: {skips or 'none'}",
+           witness="a form feed between two functions is dropped: the tree is one byte shorter than the text and every later node sits one byte early")
+    INP = "crates/parser/src/input.rs"
+    sk = model.fn("skip", INP, impl="Input")
+    par = S.Parents(sk.body)
+    incs = [x for x in S.walk(sk.body) if x["k"] == "Binary" and x["op"] == "+=" and x["left"]["k"] == "Field" and x["left"].get("member") == "cursor"]
+    if not incs:
+        raise AnalysisIncomplete("Input::skip: cursor increment not found")
+    for x in incs:
+        guards = [S.norm_ws(run.facts.text(INP, a["cond"]["sp"])) for a in par.ancestors(x) if a["k"] == "If" and S.span_contains(a["then"]["sp"], x["sp"])]
+        ok = any(re.fullmatch(r"!self\.eof\(\)|self\.cursor<self\.tokens\.len\(\)", g) for g in guards)
+        run.ob("R12.9", "Input::skip|cursor stays inside the token list", ok, site(INP, x["sp"]), f"`cursor += 1` guarded by {guards or 'nothing'}",
+               witness="`if` at end of file: advance() at the real end moves the cursor to len + 1, eof() is false for ever, the parser allocates until it dies")
+
+
 def r12_4(run, model):
     run.rule("R12.4", "the text handed to the lexer/parser entry points reaches logos unchanged: the lexer constructor and lex() are called "
                       "with the bare input parameter, and no strip/trim/replace is applied to it on the way")
@@ -202,6 +231,7 @@ def run(run, model):
     run.rule("R12.8", "the hand-written scanners of lexer and parser never index past the end (shared with C04 R04.7)")
     run.try_rule(c04.r04_7, model, ("crates/lexer/src/lib.rs", "crates/parser/src/input.rs", "crates/parser/src/parser.rs"))
     run.try_rule(r12_7, model)
+    run.try_rule(r12_9, model)
     # R12.3: no entropy in lexer / parser
     run.rule("R12.3", "lexing and parsing are deterministic: no hash-ordered iteration and no entropy source in the lexer/parser/cst/ast crates")
     bad = [c for c in mir.calls if c["file"].startswith(("crates/lexer/src", "crates/parser/src")) and re.search(r"std::collections::Hash(Map|Set)|RandomState|SystemTime|Instant::now|std::env::", c["callee"])]
